@@ -1,4 +1,5 @@
 """C13 compiling the same source is deterministic across processes (no dependence on set/hash order)."""
+from hv import core  # noqa: E402
 import ast
 import glob
 import multiprocessing as mp
@@ -206,7 +207,7 @@ def run(chk):
     tasks = [(n, sv) for n in names for sv in catalog.vectors(catalog.ENTRIES[n])]
     import gc; gc.collect(); gc.freeze()
     with mp.get_context("fork").Pool(chk.jobs) as pool:
-        res = pool.map(_w, tasks, chunksize=64)
+        res = core.pmap(pool, _w, tasks, chunksize=64)
     per = {}
     for name, sv, same, diff in res:
         chk.case((name, sv))
